@@ -426,15 +426,12 @@ def process_tpmu(tpm_type, path, selector, size_constraints=None, abort_on_error
         # selector value fails to select union member
         # only possible if value checking is turnt off
         # TODO only possible if value checking is turnt off
-        raise AssertionError(
-            f"Selection error in {path} ({tpm_type.__name__}): {selector} not in {selection}. Value checking should have taken when parsing the selector, right?"
+        value_constraint = ValueConstraint(
+            constraint_path=path,
+            tpm_type=type(selector),
+            valid_values=ValidValues(*(k for k in selection if k is not None)),
         )
-        # raise ValueConstraintViolatedError(
-        #     tpm_type=None,  # TODO type of selector
-        #     path=None,  # TODO path of selector
-        #     value=selector,
-        #     selection=selection.keys(),
-        # )
+        raise ValueConstraintViolatedError(constraint=value_constraint, value=selector)
 
     field = next(f for f in fields(tpm_type) if f.name == selectee_name)
     if field.type is None:
